@@ -57,7 +57,12 @@ def sync(ctx, *args):
         r = mkreq(names, ctx["kinds"][j], 99, t, vt, i, s, b)
         r["version"] = V
         reqs.append(r)
-    reqs.append({"version": V, "save": "/m/final"})
+    if ctx.get("combine") and reqs and isinstance(reqs[-1], dict) and "save" not in reqs[-1]:
+        # the documented protocol allows several keys in one request: the file is saved by the request that also
+        # sets / resets, so it must hold the configuration the reply to that request describes
+        reqs[-1]["save"] = "/m/final"
+    else:
+        reqs.append({"version": V, "save": "/m/final"})
     fs = _fs(text)
     replies, ok, kc = SV.run(tid, fs, "/m/sdkconfig", reqs, version=V)
     if not ok:
@@ -142,11 +147,11 @@ def jobs(tier, seed, excluded=()):
                 o += [0, 0, r.randint(*t), r.randint(*vt), r.randint(0, 3), r.randint(0, 5), bool(r.randint(0, 1))]
             return o
 
-        def add(tag, V, kinds, spec, budget=3, free_picks=False):
+        def add(tag, V, kinds, spec, budget=3, free_picks=False, combine=False):
             pr = " and ".join(pre(j, *sp) for j, sp in enumerate(spec))
             ps = [p for j in range(len(spec)) for p in req_params(j)]
             mf = (lambda t_, sl_: [x.name for x in sl_ if x.kind == "pick"]) if free_picks else None
-            out.extend(state_jobs("C14", "vk.props.c14", "sync", [tid], dom, budget, 1, tmo, rng, {"names": names, "nreq": len(spec), "kinds": kinds, "version": V, "skip": skip}, tag="v%d-%s" % (V, tag), extra_params=ps, extra_pre=pr, extra_samples=lambda r, spec=spec: smp(r, spec), must_free=mf))
+            out.extend(state_jobs("C14", "vk.props.c14", "sync", [tid], dom, budget, 1, tmo, rng, {"names": names, "nreq": len(spec), "kinds": kinds, "version": V, "skip": skip, "combine": combine}, tag="v%d-%s" % (V, tag), extra_params=ps, extra_pre=pr, extra_samples=lambda r, spec=spec: smp(r, spec), must_free=mf))
 
         tall = (0, nn - 1)
         for V in (3, 2, 1):
@@ -160,6 +165,9 @@ def jobs(tier, seed, excluded=()):
                 add("set-anytype", V, [0], [((0, min(5, nn - 1)), (3, 7))], 2)
                 add("set2", V, [8], [((0, min(4, nn - 1)), (0, 2))], 2)
             add("reset", V, [1], [(tall, (0, 0))], 6)
+            if V == 3:
+                add("reset+save", V, [1], [(tall, (0, 0))], 6, combine=True)
+                add("set+save", V, [0], [((0, min(3, nn - 1)), (0, 2))], 2, combine=True)
             add("load", V, [6], [((0, 0), (0, 0))], 6)
             if full:
                 add("set-reset", V, [0, 1], [((0, 2), (0, 1)), ((0, min(5, nn - 1)), (0, 0))], 2)
